@@ -74,3 +74,26 @@ func Corpus() []CorpusCase {
 			Name: "Bar", Verb: "POST", Path: "/bar", Request: []*Property{prop("fooId", str("string"))}}}}}))
 	return out
 }
+
+type EditPair struct {
+	Before, After *Bundle
+	Pkg           string
+	Edits         []EditRec
+}
+
+// EditCorpus: hand-written before/after pairs for C13.
+func EditCorpus() []EditPair {
+	foo := []string{"foo", "v1"}
+	mk := func(extra ...*Property) *Bundle {
+		ps := []*Property{prop("x", obj()), prop("name", str("string"))}
+		return &Bundle{Files: []*File{file(foo, "a", object("Foo", append(ps, extra...)...),
+			&Element{Kind: "enum", N: &Nested{Kind: "enum", Name: "Status", Enum: &Enum{Name: "Status", Opts: []string{"ACTIVE"}}}})}}
+	}
+	plain := mk(prop("age", &Field{Kind: "scalar", Scalar: &Scalar{Kind: "integer", Fmt: "INT32"}}))
+	plain.Files[0].Elements[1].N.Enum.Opts = []string{"ACTIVE", "INACTIVE"}
+	return []EditPair{
+		{mk(), plain, "foo.v1", []EditRec{{"field", "foo/v1/a.j5s:Foo", "age scalar"}, {"option", "foo/v1/a.j5s:Status", "INACTIVE"}}},
+		// defect: the appended inline type Foo.Foo captures the relative name Foo.X of the existing field
+		{mk(), mk(prop("foo", obj())), "foo.v1", []EditRec{{"field", "foo/v1/a.j5s:Foo", "foo objinline"}}},
+	}
+}
